@@ -641,7 +641,7 @@ static ssize_t file_read(Obj&o,const struct iovec*iov,int n){
 	if((o.oflags&O_ACCMODE)==O_WRONLY){ errno=EBADF; return -1; }
 	std::string &d=o.file->data; if(o.pos>=d.size()||total==0) return 0;
 	size_t k=std::min<size_t>(total,d.size()-o.pos);
-	if(k>1 && P.p_file_short && frng.chance(P.p_file_short)){ k=1+frng.below(k); S.file_short++; trace_mix(0xF2+k); }
+	if(k>=P.file_short_min && k>1 && P.p_file_short && frng.chance(P.p_file_short)){ k=1+frng.below(k); S.file_short++; trace_mix(0xF2+k); }
 	size_t done=0; for(int i=0;i<n&&done<k;i++){ size_t c=std::min(iov[i].iov_len,k-done); memcpy(iov[i].iov_base,d.data()+o.pos+done,c); done+=c; }
 	o.pos+=done; tracef("fread %s -> %zu",o.path.c_str(),done); return done;
 }
@@ -650,7 +650,7 @@ static ssize_t file_write(Obj&o,const struct iovec*iov,int n){
 	if(P.p_file_eintr && frng.chance(P.p_file_eintr)){ S.file_eintr++; trace_mix(0xF3); errno=EINTR; return -1; }
 	std::string all; for(int i=0;i<n;i++) all.append((const char*)iov[i].iov_base,iov[i].iov_len);
 	if(all.empty()) return 0;
-	size_t k=all.size(); if(k>1 && P.p_file_short && frng.chance(P.p_file_short)){ k=1+frng.below(k); S.file_short++; trace_mix(0xF4+k); all.resize(k); }
+	size_t k=all.size(); if(k>=P.file_short_min && k>1 && P.p_file_short && frng.chance(P.p_file_short)){ k=1+frng.below(k); S.file_short++; trace_mix(0xF4+k); all.resize(k); }
 	std::string &d=o.file->data; if(o.oflags&O_APPEND) o.pos=d.size();
 	FsEvent ev; ev.kind=FsEvent::WRITE; ev.path=o.path; ev.off=o.pos; ev.old_size=d.size(); ev.new_bytes=all;
 	if(o.pos<d.size()) ev.old_bytes=d.substr(o.pos,std::min(k,d.size()-o.pos));
